@@ -1070,11 +1070,16 @@ lyb_print_node_any(struct ly_out *out, struct lyd_node_any *anydata, struct lyd_
     struct ly_out *out2 = NULL;
     struct lylyb_ctx *lybctx = lyd_lybctx->lybctx;
 
-    if ((anydata->schema->nodetype == LYS_ANYDATA) && (anydata->value_type != LYD_ANYDATA_DATATREE)) {
+    ly_bool as_tree;
+
+    /* a node without any value (never set or freed by lyd_any_copy_value()) is printed as an empty data tree */
+    as_tree = (anydata->value_type == LYD_ANYDATA_DATATREE) || !anydata->value.str;
+
+    if ((anydata->schema->nodetype == LYS_ANYDATA) && !as_tree) {
         LOGINT_RET(lybctx->ctx);
     }
 
-    if (anydata->value_type == LYD_ANYDATA_DATATREE) {
+    if (as_tree) {
         /* will be printed as a nested LYB data tree because the used modules need to be written */
         value_type = LYD_ANYDATA_LYB;
     } else {
@@ -1087,10 +1092,11 @@ lyb_print_node_any(struct ly_out *out, struct lyd_node_any *anydata, struct lyd_
     /* first byte is type */
     LY_CHECK_GOTO(ret = lyb_write_number(value_type, sizeof value_type, out, lybctx), cleanup);
 
-    if (anydata->value_type == LYD_ANYDATA_DATATREE) {
+    if (as_tree) {
         /* print LYB data tree to memory */
         LY_CHECK_GOTO(ret = ly_out_new_memory(&buf, 0, &out2), cleanup);
-        LY_CHECK_GOTO(ret = lyb_print_data(out2, anydata->value.tree, LYD_PRINT_WITHSIBLINGS), cleanup);
+        LY_CHECK_GOTO(ret = lyb_print_data(out2, (anydata->value_type == LYD_ANYDATA_DATATREE) ? anydata->value.tree : NULL,
+                LYD_PRINT_WITHSIBLINGS), cleanup);
 
         len = lyd_lyb_data_length(buf);
         assert(len != -1);
